@@ -221,6 +221,9 @@ class Builder:
     def e_pget(self, e, sc):
         return sc.params[e[1]].get()
 
+    def e_pragma(self, e, sc):
+        return pt.Pragma(self.ex(e[1], sc), compiler_version=e[2] if len(e) > 2 else ">=0.0.1")
+
     def e_ifx(self, e, sc):
         if e[-1] == "fn" or (len(e) > 4 and e[4] == "fn"):
             return pt.If(self.ex(e[1], sc), self.ex(e[2], sc), self.ex(e[3], sc))
